@@ -518,6 +518,8 @@ EXT['builtins.int'].name = 'builtins.int'
 @model('builtins.float')
 def b_float(interp, st, fr, args, kw):
     x = args[0]
+    if isinstance(x, Opaque) and x.tag == 'token':
+        return Sc(PARSE_FLOAT(to_z3(x.info, 'int')))
     if isinstance(x, Opaque):
         return Sc(z3.Real(fresh_name('parsed')))
     if isinstance(x, str):
@@ -566,7 +568,7 @@ def b_isinstance(interp, st, fr, args, kw):
         name = getattr(tt, 'name', None) or getattr(tt, 'qualname', None)
         if name in ('builtins.str',) and isinstance(x, (str,)):
             return True
-        if name in ('builtins.str',) and isinstance(x, Opaque) and x.tag == 'str':
+        if name in ('builtins.str',) and isinstance(x, Opaque) and x.tag in ('str', 'token'):
             return True
         if name in ('builtins.list',) and isinstance(x, ListRef):
             return True
